@@ -259,7 +259,12 @@ def step(w, kind, op):
         return len(buf.getvalue())
     if kind == "level":
         lu = m.Decibel[w.q(op[1], op[2])]
-        return repr(w.q(op[3], op[4]).level(lu).magnitude)
+        return {"mag": M.enc_mag(w.q(op[3], op[4]).level(lu).magnitude)}
+    if kind == "lt_level":
+        # an ordering between a quantity and a level (of a reference that the quantity's unit may not be convertible to)
+        lu = m.Decibel[w.q(op[4], op[5])]
+        a, b = w.q(op[1], op[2]), m.Level(M.dec_mag(op[3]), lu)
+        return [bool(a < b), bool(b > a)] if op[6] == "lt" else [bool(a >= b), bool(b <= a)] if op[6] == "ge" else sorted([a, b]) is not None
     if kind == "define_dimension":
         d = m.Dimension.define(op[1], op[2])
         return dim_exps(d)
